@@ -240,33 +240,49 @@ func (p *asyncPostProcess) OnFinished(f func(path string, content []byte) error)
 	var wg sync.WaitGroup
 	errs := make(chan error, len(p.jobs))
 	processing := make(chan struct{}, p.concurrency)
+	verifNext := 0
 	for _, j := range p.jobs {
+		vi := verifNext
+		verifNext++
+		verifEvent("dispatch", vi)
 		select {
 		case processing <- struct{}{}: // processing++, block if full
+			verifEvent("acquire", vi)
 		case err := <-errs:
+			verifEvent("recv-err", vi)
 			wg.Wait()
+			verifEvent("return", vi)
 			return err
 		}
 		wg.Add(1)
+		verifEvent("spawn", vi)
 		go func(path string, content []byte) {
 			defer func() { wg.Done(); <-processing }() // processing--
+			defer func() { verifEvent("done", vi); verifEvent("release", vi) }()
+			verifEvent("worker-start", vi)
 			var err error
 			if p.pp != nil {
 				content, err = p.pp.PostProcess(path, content)
 			}
+			verifEvent("pp-done", vi)
 			if err == nil {
 				err = f(path, content)
+				verifEvent("write-done", vi)
 			}
 			if err != nil {
+				verifEvent("err-send", vi)
 				errs <- err
 			}
 		}(j.Path, unsafex.StringToBinary(j.Content))
 	}
 	wg.Wait()
+	verifEvent("final-wait", verifNext)
 	select {
 	case err := <-errs:
+		verifEvent("return", verifNext)
 		return err
 	default:
+		verifEvent("return", verifNext)
 		return nil
 	}
 }
